@@ -307,9 +307,19 @@ def stream_soup(rng, maxlen, exhaustive_len):
 
 def stream_escapes(rng, quick):
     cases = []
-    for c in range(0x20, 0x7f):
-        s = b'"\\' + bytes([c]) + b'"'
-        cases.append(pcase('L', 0, len(s), s, {'tags': ['escape']}))
+    for c in range(0x00, 0x100):       # every byte after a backslash (0x00 included: length-delimited buffers may hold it), bare and inside text
+        for s in (b'"\\' + bytes([c]) + b'"', b'["a\\' + bytes([c]) + b'b"]', b'{"k\\' + bytes([c]) + b'":1}'):
+            cases.append(pcase('L', 0, len(s), s, {'tags': ['escape']}))
+            if c < 0x20 or c >= 0x7f: cases.append(pcase('L', 1, len(s) + 1, s + b'\0', {'tags': ['escape', 'rnt']}))
+    # truncated \u escapes (fewer than four hex digits before the next backslash / quote / end) after a plain prefix: the size
+    # estimate of the first pass and the decoder of the second pass must agree on every such shape
+    for k in (0, 1, 2, 3, 8, 16, 40):
+        for n in (1, 2, 3, 5, 9):
+            for frag in (b'\\u', b'\\u1', b'\\u12', b'\\u123', b'\\uD83D', b'\\uD83D\\u', b'\\uD83D\\uDE'):
+                for tail in (b'"', b'', b'\\', b'x"'):
+                    s = b'"' + b'a' * k + frag * n + tail
+                    cases.append(pcase('L', 0, len(s), s, {'tags': ['escape-u-truncated']}))
+                    if k == 8: cases.append(pcase('P', 0, 0, s + b'\0', {'tags': ['escape-u-truncated']}))
     digs = b'09aFgG/:@`'
     tuples = list(itertools.product(digs, repeat=4))
     if quick: tuples = rng.sample(tuples, 600)
